@@ -31,6 +31,10 @@ head = ("## 8. Seeded changes (independent sub-agents) and which checks catch th
         "the targeted property against it (`VERIF_REPO`), with evidence and replay files redirected; `/repo` itself is never touched.\n"
         "caught = exit 1 with a natively replayed counterexample; inconclusive = exit 2 (the check refuses to pass but has no\n"
         "replayed counterexample); MISSED = exit 0.\n\n")
-s = s[:a] + head + table
+tail = ""
+sp = os.path.join(V, "seeded", "SUMMARY.md")
+if os.path.exists(sp):
+    tail = "\n" + open(sp).read()
+s = s[:a] + head + table + tail
 open(p, "w").write(s)
 print("%d rows" % len(rows))
